@@ -74,7 +74,7 @@ Section Sim.
     Lemma ex_sim s : forall rs m a,
       closed_names (fnames_s s) -> res_s rho s = Some rs -> ex callY m a rs = ex callG m a s.
     Proof.
-      destruct s as [x e|p x|p e|e|e]; intros rs m a Hc Hr; simpl in Hr, Hc.
+      destruct s as [x e|p x|p e|e|e|k]; intros rs m a Hc Hr; simpl in Hr, Hc.
       - destruct (res_e rho e) as [r|] eqn:E; [|discriminate]. inversion Hr; subst. simpl.
         rewrite (ev_sim e r m a Hc E). reflexivity.
       - inversion Hr; reflexivity.
@@ -84,6 +84,7 @@ Section Sim.
         rewrite (ev_sim e r m a Hc E). reflexivity.
       - destruct (res_e rho e) as [r|] eqn:E; [|discriminate]. inversion Hr; subst. simpl.
         rewrite (ev_sim e r m a Hc E). reflexivity.
+      - inversion Hr; reflexivity.
     Qed.
 
     Lemma exl_sim l : forall rl m a r,
@@ -141,7 +142,7 @@ Section ResLemmas.
 
   Lemma res_s_ext s : forall rs, res_s rho s = Some rs -> res_s rho' s = Some rs.
   Proof.
-    destruct s as [x e|p x|p e|e|e]; intros rs Hr; simpl in *; try assumption;
+    destruct s as [x e|p x|p e|e|e|k]; intros rs Hr; simpl in *; try assumption;
       (destruct (res_e rho e) as [r|] eqn:E; [|discriminate]; rewrite (res_e_ext e r E); assumption).
   Qed.
 
@@ -178,7 +179,7 @@ Section ResTotal.
 
   Lemma res_s_total s : in_scope (fnames_s s) -> exists rs, res_s rho s = Some rs.
   Proof.
-    destruct s as [x e|p x|p e|e|e]; intros H; simpl in *; try (eexists; reflexivity);
+    destruct s as [x e|p x|p e|e|e|k]; intros H; simpl in *; try (eexists; reflexivity);
       (destruct (res_e_total e H) as [r ->]; eexists; reflexivity).
   Qed.
 
@@ -295,7 +296,7 @@ Lemma ordered_cons known i r :
   /\ (forall f d, i = IFunc f d -> ~ In f known)
   /\ ordered_from (known_after known [i]) r = true.
 Proof.
-  simpl. rewrite andb_true_iff, forallb_known. destruct i as [x e|p|f d|s]; simpl.
+  simpl. rewrite andb_true_iff, forallb_known. destruct i as [x e|p|f d|s|k]; simpl.
   - split; [intros [H1 H2]; repeat split; try assumption; intros; discriminate|tauto].
   - split; [intros [H1 H2]; repeat split; try assumption; intros; discriminate|tauto].
   - rewrite andb_true_iff, negb_true_iff. split.
@@ -304,6 +305,7 @@ Proof.
     + intros [H1 [H2 H3]]. repeat split; try assumption.
       destruct (existsb (N.eqb f) known) eqn:E; [|reflexivity].
       apply existsb_eqb_In in E. exfalso. eapply H2; [reflexivity|assumption].
+  - split; [intros [H1 H2]; repeat split; try assumption; intros; discriminate|tauto].
   - split; [intros [H1 H2]; repeat split; try assumption; intros; discriminate|tauto].
 Qed.
 
@@ -332,7 +334,7 @@ Proof.
   induction c as [|i c IH]; intros known f; simpl; [tauto|].
   change (known_after known (i :: c)) with (known_after (known_after known [i]) c).
   rewrite IH. unfold funcs. simpl. fold (funcs c).
-  destruct i as [x e|p|g d|s]; simpl; tauto.
+  destruct i as [x e|p|g d|s|k]; simpl; tauto.
 Qed.
 
 Lemma ordered_fresh c : forall known, ordered_from known c = true ->
@@ -341,7 +343,7 @@ Proof.
   induction c as [|i c IH]; intros known H; [split; [constructor|intros f []]|].
   apply ordered_cons in H as [H1 [H2 H3]]. destruct (IH _ H3) as [Hnd Hfr].
   unfold funcs. simpl. fold (funcs c).
-  destruct i as [x e|p|g d|s]; simpl in *; try (split; assumption).
+  destruct i as [x e|p|g d|s|k]; simpl in *; try (split; assumption).
   split.
   - constructor; [|assumption]. intros Hin. apply (Hfr g Hin). left; reflexivity.
   - intros f [Hf|Hf].
@@ -358,7 +360,7 @@ Proof.
   - specialize (IH _ H3 i Hin). eapply Forall_impl; [|exact IH]. intros f Hf.
     unfold funcs. simpl. fold (funcs c). rewrite map_app, in_app_iff.
     destruct Hf as [Hf|Hf]; [|tauto].
-    destruct i0 as [x e|p|g d|s]; simpl in *; try tauto.
+    destruct i0 as [x e|p|g d|s|k]; simpl in *; try tauto.
     all: try (destruct Hf as [Hf|Hf]; [right; left; left; congruence|tauto]).
 Qed.
 
@@ -383,7 +385,7 @@ Lemma stmts_names c : forall known, forallb (fun i => negb (is_decl i)) c = true
   Forall (fun f => In f known) (flat_map fnames_s (stmts c)).
 Proof.
   induction c as [|i c IH]; intros known H Ho; [constructor|]. simpl in H. apply andb_true_iff in H as [H1 H2].
-  destruct i as [| | |s]; try discriminate. apply ordered_cons in Ho as [Ha [_ Hb]].
+  destruct i as [| | |s|]; try discriminate. apply ordered_cons in Ho as [Ha [_ Hb]].
   unfold stmts. simpl. fold (stmts c). apply Forall_app. split; [exact Ha|]. apply IH; assumption.
 Qed.
 
@@ -394,7 +396,7 @@ Lemma g_items_stmts fuel c : forall g r, forallb (fun i => negb (is_decl i)) c =
 Proof.
   induction c as [|i c IH]; intros g r H.
   - simpl. destruct g; reflexivity.
-  - simpl in H. apply andb_true_iff in H as [H1 H2]. destruct i as [| | |s]; try discriminate.
+  - simpl in H. apply andb_true_iff in H as [H1 H2]. destruct i as [| | |s|]; try discriminate.
     unfold stmts. simpl. fold (stmts c).
     destruct (ex (call_n (alookup (gfuns g)) fuel) (gmem g) 0%Z s) as [m1 r1] eqn:E.
     rewrite IH by assumption. simpl. reflexivity.
@@ -406,20 +408,29 @@ Proof.
   destruct i; try discriminate. simpl. apply IH, H2.
 Qed.
 
+Lemma uses_ok_nouses s c : no_uses c = true -> uses_ok s c = true.
+Proof. unfold no_uses, uses_ok. destruct (flat_map uses_i c); [reflexivity|discriminate]. Qed.
+
+Lemma no_uses_app c1 c2 : no_uses (c1 ++ c2) = no_uses c1 && no_uses c2.
+Proof.
+  unfold no_uses. rewrite flat_map_app. destruct (flat_map uses_i c1); [|reflexivity].
+  simpl. destruct (flat_map uses_i c2); reflexivity.
+Qed.
+
 Lemma step_stmts fuel s g known c :
   Inv s g -> Known known g ->
   forallb is_decl c = false -> forallb (fun i => negb (is_decl i)) c = true ->
-  ordered_from known c = true -> alookup (fscope s) main_name = None ->
+  ordered_from known c = true -> alookup (fscope s) main_name = None -> no_uses c = true ->
   exists s' g' r, y_eval fuel s c = (s', r) /\ g_eval fuel g c = (g', r) /\ Inv s' g' /\ Known known g'
                   /\ alookup (fscope s') main_name = None.
 Proof.
-  intros [Hm Hc Hd Hb] Hk Hnd Hst Ho Hmain.
+  intros [Hm Hc Hd Hb] Hk Hnd Hst Ho Hmain Hnu.
   assert (Hin : in_scope (alookup (fscope s)) (flat_map fnames_s (stmts c))).
   { eapply Forall_impl; [|apply (stmts_names c known Hst Ho)]. intros f Hf. apply Hd, Hk, Hf. }
   destruct (res_l_total _ _ Hin) as [ss Hss].
   assert (Hcl : closed_names (alookup (gfuns g)) (flat_map fnames_s (stmts c))).
   { eapply Forall_impl; [|apply (stmts_names c known Hst Ho)]. intros f Hf. apply Hk, Hf. }
-  unfold y_eval, y_compile. rewrite Hnd, Hst, Hss. unfold y_execute. cbn [p_stmts p_loop p_inits p_main code ymem fscope].
+  unfold y_eval, y_compile. rewrite (uses_ok_nouses s c Hnu). cbn [negb]. rewrite Hnd, Hst, Hss. unfold y_execute. cbn [p_stmts p_loop p_inits p_main code ymem fscope].
   rewrite Hmain.
   rewrite (exl_sim _ _ _ _ (call_sim _ _ _ Hc fuel) (stmts c) ss (ymem s) 0%Z None Hcl Hss).
   unfold g_eval. rewrite (g_items_stmts fuel c g None Hst). rewrite <- Hm.
@@ -449,7 +460,7 @@ Proof.
   - simpl in Hri. inversion Hri; subst. exists g. split; [reflexivity|]. split; [reflexivity|]. split; [reflexivity|exact Hc].
   - simpl in Hd. apply andb_true_iff in Hd as [Hd1 Hd2].
     apply ordered_cons in Ho as [Ho1 [Ho2 Ho3]].
-    destruct i as [x e|p|f d|s]; try discriminate.
+    destruct i as [x e|p|f d|s|k]; try discriminate.
     + (* var x = e *)
       unfold inits in Hri. simpl in Hri. fold (inits c) in Hri. unfold res_inits in Hri. simpl in Hri.
       destruct (res_e rho' e) as [e'|] eqn:Ee; [|discriminate]. simpl in Hri.
@@ -491,7 +502,12 @@ Proof.
       * intros f' d' Hin. apply HA. unfold funcs. simpl. right. exact Hin.
       * exact Hri.
       * exists g2. split; [exact H1|]. split; [exact H2|]. split; [|exact H4].
-        rewrite H3. unfold funcs. simpl. fold (funcs c). rewrite <- app_assoc. reflexivity.
+        rewrite H3. unfold funcs. simpl. fold (funcs c). rewrite <- app_assoc. reflexivity.    + (* import *)
+      simpl. destruct (IH g known ri Hd2 Hc Hk Ho3) as [g2 [H1 [H2 [H3 H4]]]].
+      * intros f d Hin. apply HA. unfold funcs. simpl. exact Hin.
+      * exact Hri.
+      * exists g2. split; [exact H1|]. split; [exact H2|]. split; [|exact H4].
+        rewrite H3. unfold funcs. simpl. reflexivity.
 Qed.
 
 Lemma In_funcs c f d : In (f, d) (funcs c) <-> In (IFunc f d) c.
@@ -543,12 +559,12 @@ Qed.
 Lemma step_decls fuel s g known c :
   Inv s g -> Known known g -> forallb is_decl c = true ->
   ordered_from known c = true -> inits_indirect c = true ->
-  alookup (fscope s) main_name = None ->
+  alookup (fscope s) main_name = None -> no_uses c = true ->
   exists s' g' r, y_eval fuel s c = (s', r) /\ g_eval fuel g c = (g', r) /\ Inv s' g'
       /\ Known (known_after known c) g'
       /\ (declares_main c = false -> alookup (fscope s') main_name = None).
 Proof.
-  intros [Hm Hc Hd Hb] Hk Hdecl Ho Hind Hmain.
+  intros [Hm Hc Hd Hb] Hk Hdecl Ho Hind Hmain Hnu.
   set (l := funcs c). set (F := gta_f (length (code s)) (fscope s) l). set (rho' := alookup F).
   destruct (ordered_fresh c known Ho) as [Hnd Hfr]. fold l in Hnd, Hfr.
   assert (Hold : forall f k, alookup (fscope s) f = Some k -> rho' f = Some k).
@@ -578,7 +594,7 @@ Proof.
   destruct (decl_core fuel rho' cd' c g known ri Hdecl HB Hk Ho HA Hri) as [g2 [H1 [H2 [H3 H4]]]].
   assert (Hloop : loop_flag (gta_v (epoch s) (vscope s) (vars c)) (epoch s) ri = false)
     by (apply (loop_flag_indirect rho' _ _ c ri Hind Hri)).
-  unfold y_eval, y_compile. rewrite Hdecl. fold l. fold F. fold rho'. unfold res_funcs, res_inits. rewrite Hds, Hri.
+  unfold y_eval, y_compile. rewrite (uses_ok_nouses s c Hnu). cbn [negb]. rewrite Hdecl. fold l. fold F. fold rho'. unfold res_funcs, res_inits. rewrite Hds, Hri.
   unfold y_execute. cbn [p_stmts p_loop p_inits p_main code ymem fscope exl]. rewrite Hloop.
   fold cd'. unfold g_eval. rewrite H1. rewrite Hm, <- H2.
   assert (Hdom2 : forall f, alookup (gfuns g2) f <> None <-> rho' f <> None).
@@ -626,19 +642,20 @@ Proof. unfold inits_indirect. apply forallb_app. Qed.
 Lemma run_sim fuel : forall cs s g known,
   Inv s g -> Known known g -> alookup (fscope s) main_name = None ->
   forallb homogeneous cs = true -> ordered_from known (concat cs) = true ->
-  inits_indirect (concat cs) = true -> main_last cs = true ->
+  inits_indirect (concat cs) = true -> main_last cs = true -> no_uses (concat cs) = true ->
   obs_y (y_run fuel s cs) = obs_g (g_run fuel g cs).
 Proof.
-  induction cs as [|c r IH]; intros s g known Hinv Hk Hmain Hh Ho Hi Hl.
+  induction cs as [|c r IH]; intros s g known Hinv Hk Hmain Hh Ho Hi Hl Hnu.
   - simpl. unfold obs_y, obs_g. simpl. rewrite (inv_mem _ _ Hinv). reflexivity.
   - simpl in Hh. apply andb_true_iff in Hh as [Hh1 Hh2].
     simpl in Ho. rewrite ordered_from_app in Ho. apply andb_true_iff in Ho as [Ho1 Ho2].
     simpl in Hi. rewrite inits_indirect_app in Hi. apply andb_true_iff in Hi as [Hi1 Hi2].
+    simpl in Hnu. rewrite no_uses_app in Hnu. apply andb_true_iff in Hnu as [Hnu1 Hnu2].
     assert (Hstep : exists s' g' r1, y_eval fuel s c = (s', r1) /\ g_eval fuel g c = (g', r1) /\ Inv s' g'
               /\ Known (known_after known c) g' /\ (declares_main c = false -> alookup (fscope s') main_name = None)).
     { unfold homogeneous in Hh1. destruct (forallb is_decl c) eqn:Ed.
       - apply step_decls; assumption.
-      - simpl in Hh1. destruct (step_stmts fuel s g known c Hinv Hk Ed Hh1 Ho1 Hmain) as [s' [g' [r1 [A [B [C [D E]]]]]]].
+      - simpl in Hh1. destruct (step_stmts fuel s g known c Hinv Hk Ed Hh1 Ho1 Hmain Hnu1) as [s' [g' [r1 [A [B [C [D E]]]]]]].
         exists s', g', r1. rewrite (known_after_stmts c known Hh1).
         split; [exact A|]. split; [exact B|]. split; [exact C|]. split; [exact D|intros _; exact E]. }
     destruct Hstep as [s' [g' [r1 [A [B [C [D E]]]]]]].
@@ -647,7 +664,7 @@ Proof.
     + simpl. unfold obs_y, obs_g. simpl. rewrite (inv_mem _ _ C). reflexivity.
     + assert (Hl' : negb (declares_main c) && main_last (c2 :: r2) = true) by exact Hl.
       apply andb_true_iff in Hl' as [Hl1 Hl2]. apply negb_true_iff in Hl1.
-      specialize (IH s' g' (known_after known c) C D (E Hl1) Hh2 Ho2 Hi2 Hl2).
+      specialize (IH s' g' (known_after known c) C D (E Hl1) Hh2 Ho2 Hi2 Hl2 Hnu2).
       unfold obs_y, obs_g in *.
       destruct (y_run fuel s' (c2 :: r2)) as [s2 rs2]. destruct (g_run fuel g' (c2 :: r2)) as [g2 rs2'].
       simpl in *. inversion IH; subst. reflexivity.
@@ -667,10 +684,69 @@ Qed.
     output) and the same value returned by every evaluation. *)
 Theorem y_session_is_g fuel cs :
   forallb homogeneous cs = true -> ordered (concat cs) = true ->
-  inits_indirect (concat cs) = true -> main_last cs = true ->
+  inits_indirect (concat cs) = true -> main_last cs = true -> no_uses (concat cs) = true ->
   obs_y (y_run fuel y0 cs) = obs_g (g_run fuel g0 cs).
 Proof.
   intros. apply (run_sim fuel cs y0 g0 []); try assumption.
+  - exact inv0.
+  - intros f. simpl. tauto.
+  - reflexivity.
+Qed.
+
+(* ------------------------------------------------------------------ *)
+(** * Sessions of steps (mixed entry points) *)
+
+Lemma inv_set_name s g n : Inv s g -> Inv (set_name s n) g.
+Proof. intros [A B C D]. constructor; assumption. Qed.
+
+Lemma steps_sim fuel : forall l s g known,
+  Inv s g -> Known known g -> alookup (fscope s) main_name = None -> nodir l = true ->
+  forallb homogeneous (map step_chunk l) = true -> ordered_from known (concat (map step_chunk l)) = true ->
+  inits_indirect (concat (map step_chunk l)) = true -> main_last (map step_chunk l) = true ->
+  no_uses (concat (map step_chunk l)) = true ->
+  obs_y (y_steps fuel s l) = obs_g (g_run fuel g (map step_chunk l)).
+Proof.
+  induction l as [|st r IH]; intros s g known Hinv Hk Hmain Hnd Hh Ho Hi Hl Hnu.
+  - simpl. unfold obs_y, obs_g. simpl. rewrite (inv_mem _ _ Hinv). reflexivity.
+  - simpl in Hnd. apply andb_true_iff in Hnd as [Hnd1 Hnd2].
+    simpl in Hh. apply andb_true_iff in Hh as [Hh1 Hh2].
+    simpl in Ho. rewrite ordered_from_app in Ho. apply andb_true_iff in Ho as [Ho1 Ho2].
+    simpl in Hi. rewrite inits_indirect_app in Hi. apply andb_true_iff in Hi as [Hi1 Hi2].
+    simpl in Hnu. rewrite no_uses_app in Hnu. apply andb_true_iff in Hnu as [Hnu1 Hnu2].
+    set (c := step_chunk st) in *.
+    assert (Hstep : exists s' g' r1, y_step fuel s st = (s', r1) /\ g_eval fuel g c = (g', r1) /\ Inv s' g'
+              /\ Known (known_after known c) g' /\ (declares_main c = false -> alookup (fscope s') main_name = None)).
+    { assert (Hgen : forall s0, Inv s0 g -> alookup (fscope s0) main_name = None ->
+                exists s' g' r1, y_eval fuel s0 c = (s', r1) /\ g_eval fuel g c = (g', r1) /\ Inv s' g'
+                /\ Known (known_after known c) g' /\ (declares_main c = false -> alookup (fscope s') main_name = None)).
+      { intros s0 Hinv0 Hmain0. unfold homogeneous in Hh1. destruct (forallb is_decl c) eqn:Ed.
+        - apply step_decls; assumption.
+        - simpl in Hh1. destruct (step_stmts fuel s0 g known c Hinv0 Hk Ed Hh1 Ho1 Hmain0 Hnu1) as [s' [g' [r1 [A [B [C [D E]]]]]]].
+          exists s', g', r1. rewrite (known_after_stmts c known Hh1).
+          split; [exact A|]. split; [exact B|]. split; [exact C|]. split; [exact D|intros _; exact E]. }
+      destruct st as [c0|n c0|c0]; [apply Hgen; assumption| |discriminate].
+      apply (Hgen (set_name s n)); [apply inv_set_name, Hinv|exact Hmain]. }
+    destruct Hstep as [s' [g' [r1 [A [B [C [D E]]]]]]].
+    change (map step_chunk (st :: r)) with (c :: map step_chunk r).
+    simpl. rewrite A, B.
+    destruct r as [|st2 r2].
+    + simpl. unfold obs_y, obs_g. simpl. rewrite (inv_mem _ _ C). reflexivity.
+    + assert (Hl' : negb (declares_main c) && main_last (map step_chunk (st2 :: r2)) = true) by exact Hl.
+      apply andb_true_iff in Hl' as [Hl1 Hl2]. apply negb_true_iff in Hl1.
+      specialize (IH s' g' (known_after known c) C D (E Hl1) Hnd2 Hh2 Ho2 Hi2 Hl2 Hnu2).
+      unfold obs_y, obs_g in *.
+      destruct (y_steps fuel s' (st2 :: r2)) as [s2 rs2]. destruct (g_run fuel g' (map step_chunk (st2 :: r2))) as [g2 rs2'].
+      simpl in *. inversion IH; subst. reflexivity.
+Qed.
+
+(** Mixing Eval-like steps and named files in any order does not matter (no directories, no use of imports). *)
+Theorem y_steps_is_g fuel l :
+  nodir l = true -> forallb homogeneous (map step_chunk l) = true -> ordered (concat (map step_chunk l)) = true ->
+  inits_indirect (concat (map step_chunk l)) = true -> main_last (map step_chunk l) = true ->
+  no_uses (concat (map step_chunk l)) = true ->
+  obs_y (y_steps fuel y0 l) = obs_g (g_run fuel g0 (map step_chunk l)).
+Proof.
+  intros. apply (steps_sim fuel l y0 g0 []); try assumption.
   - exact inv0.
   - intros f. simpl. tauto.
   - reflexivity.
@@ -778,7 +854,7 @@ Proof.
   induction c as [|i c IH]; intros g known r Hg Hk Ho; [split; assumption|].
   apply ordered_cons in Ho as [Ho1 [Ho2 Ho3]].
   change (known_after known (i :: c)) with (known_after (known_after known [i]) c).
-  simpl. destruct i as [x e|p|f d|s]; simpl.
+  simpl. destruct i as [x e|p|f d|s|k]; simpl.
   - destruct (ev (call_n (alookup (gfuns g)) fuel) (gmem g) 0%Z e) as [m1 v]. apply IH; assumption.
   - apply IH; assumption.
   - apply IH; [| |exact Ho3].
@@ -792,7 +868,7 @@ Proof.
     + intros f'. simpl. destruct (N.eqb_spec f f') as [<-|Hne].
       * split; [discriminate|intros _; left; reflexivity].
       * rewrite <- (Hk f'). split; [intros [H|H]; [congruence|exact H]|intros H; right; exact H].
-  - destruct (ex (call_n (alookup (gfuns g)) fuel) (gmem g) 0%Z s) as [m1 r1]. apply IH; assumption.
+  - destruct (ex (call_n (alookup (gfuns g)) fuel) (gmem g) 0%Z s) as [m1 r1]. apply IH; assumption.  - apply IH; assumption.
 Qed.
 
 Lemma stmts_map b : stmts (map IStmt b) = b.
@@ -817,7 +893,7 @@ Lemma prog_ok_parts p : prog_ok p = true ->
   /\ ~ In main_name (map fst (funcs (decls p)))
   /\ ~ In main_name (flat_map fnames_s (body p)).
 Proof.
-  unfold prog_ok, ordered, no_main. intros H. apply andb_true_iff in H as [H H3]. apply andb_true_iff in H as [H1 H2].
+  unfold prog_ok, ordered, no_main. intros H. apply andb_true_iff in H as [H _]. apply andb_true_iff in H as [H H3]. apply andb_true_iff in H as [H1 H2].
   rewrite ordered_from_app in H2. apply andb_true_iff in H2 as [H2a H2b].
   apply negb_true_iff in H3.
   assert (Hn : ~ In main_name (flat_map declared_f (decls p ++ map IStmt (body p)) ++ flat_map fnames_i (decls p ++ map IStmt (body p)))).
@@ -827,6 +903,18 @@ Proof.
     rewrite declared_funcs. exact Hin.
   - intros Hin. apply Hn. apply in_app_iff. right. rewrite flat_map_app. apply in_app_iff. right.
     clear -Hin. induction (body p) as [|s b IH]; [exact Hin|]. simpl in *. apply in_app_iff in Hin. apply in_app_iff. tauto.
+Qed.
+
+Lemma prog_ok_nouses p : prog_ok p = true -> no_uses (decls p ++ map IStmt (body p)) = true.
+Proof. unfold prog_ok. intros H. apply andb_true_iff in H as [_ H]. exact H. Qed.
+
+Lemma uses_map_stmts b : flat_map uses_i (map IStmt b) = flat_map uses_s b.
+Proof. induction b as [|s b IH]; [reflexivity|]. simpl. now rewrite IH. Qed.
+
+Lemma whole_nouses p : prog_ok p = true -> no_uses (whole p) = true.
+Proof.
+  intros H. apply prog_ok_nouses in H. unfold no_uses, whole in *. rewrite flat_map_app in *.
+  rewrite uses_map_stmts in H. simpl. rewrite app_nil_r. exact H.
 Qed.
 
 Lemma g_whole fuel p : prog_ok p = true ->
@@ -910,16 +998,19 @@ Proof.
   assert (Hpieces : obs_y (y_run fuel y0 (pieces p c1 c2)) = obs_g (g_run fuel g0 (pieces p c1 c2))).
   { apply y_session_is_g.
     - apply pieces_homogeneous, Hok.
-    - rewrite pieces_concat. unfold prog_ok in Hok. apply andb_true_iff in Hok as [Hok _]. apply andb_true_iff in Hok as [_ Hok]. exact Hok.
+    - rewrite pieces_concat. pose proof Hok as Hok'. unfold prog_ok in Hok'. apply andb_true_iff in Hok' as [Hok' _].
+      apply andb_true_iff in Hok' as [Hok' _]. apply andb_true_iff in Hok' as [_ Hok']. exact Hok'.
     - rewrite pieces_concat, inits_indirect_app, Hi. apply inits_indirect_stmts.
-    - apply main_last_nomain, pieces_nomain, Hok. }
+    - apply main_last_nomain, pieces_nomain, Hok.
+    - rewrite pieces_concat. apply prog_ok_nouses, Hok. }
   destruct (whole_ok p Hok) as [Hwo Hwd].
   assert (Hwhole : obs_y (y_run fuel y0 [whole p]) = obs_g (g_run fuel g0 [whole p])).
   { apply y_session_is_g.
     - simpl. unfold homogeneous. rewrite Hwd. reflexivity.
     - simpl. rewrite app_nil_r. exact Hwo.
     - simpl. rewrite app_nil_r. unfold whole. rewrite inits_indirect_app, Hi. reflexivity.
-    - reflexivity. }
+    - reflexivity.
+    - simpl. rewrite app_nil_r. apply whole_nouses, Hok. }
   pose proof (f_equal fst Hpieces) as Hp1. pose proof (f_equal fst Hwhole) as Hw1.
   unfold obs_y, obs_g in Hp1, Hw1. cbn [fst] in Hp1, Hw1.
   rewrite Hp1, Hw1. rewrite (g_run_nomain fuel _ g0 None (pieces_nomain p c1 c2 Hok)).
@@ -964,19 +1055,20 @@ Qed.
     one piece, provided [main] sits in the last chunk. *)
 Theorem complete_program_cut fuel cs :
   forallb (forallb is_decl) cs = true -> ordered (concat cs) = true ->
-  inits_indirect (concat cs) = true -> main_last cs = true ->
+  inits_indirect (concat cs) = true -> main_last cs = true -> no_uses (concat cs) = true ->
   ymem (fst (y_run fuel y0 cs)) = ymem (fst (y_run fuel y0 [concat cs])).
 Proof.
-  intros Hd Ho Hi Hl.
+  intros Hd Ho Hi Hl Hnu.
   assert (Hh : forallb homogeneous cs = true).
   { rewrite forallb_forall in *. intros c Hc. unfold homogeneous. rewrite (Hd c Hc). reflexivity. }
-  pose proof (f_equal fst (y_session_is_g fuel cs Hh Ho Hi Hl)) as H1.
+  pose proof (f_equal fst (y_session_is_g fuel cs Hh Ho Hi Hl Hnu)) as H1.
   assert (H2 : fst (obs_y (y_run fuel y0 [concat cs])) = fst (obs_g (g_run fuel g0 [concat cs]))).
   { f_equal. apply y_session_is_g.
     - simpl. unfold homogeneous. rewrite (concat_all_decl cs Hd). reflexivity.
     - simpl. rewrite app_nil_r. exact Ho.
     - simpl. rewrite app_nil_r. exact Hi.
-    - reflexivity. }
+    - reflexivity.
+    - simpl. rewrite app_nil_r. exact Hnu. }
   unfold obs_y, obs_g in H1, H2. cbn [fst] in H1, H2. rewrite H1, H2.
   rewrite (g_run_mainlast fuel cs g0 Hl). simpl. destruct (g_eval fuel g0 (concat cs)) as [g1 r1]. reflexivity.
 Qed.
@@ -1033,9 +1125,9 @@ Section Range.
 
   Lemma res_s_range s : forall rs, res_s rho s = Some rs -> in_range (fnames_s rs).
   Proof.
-    destruct s as [x e|p x|p e|e|e]; intros rs Hr; simpl in Hr;
+    destruct s as [x e|p x|p e|e|e|k]; intros rs Hr; simpl in Hr;
       try (destruct (res_e rho e) as [r|] eqn:E; [|discriminate]; inversion Hr; subst; simpl; apply (res_e_range e r E)).
-    inversion Hr; subst. constructor.
+    all: inversion Hr; subst; constructor.
   Qed.
 
   Lemma res_l_range l : forall rl, res_l rho l = Some rl -> in_range (flat_map fnames_s rl).
@@ -1081,6 +1173,8 @@ Lemma compile_facts s c s1 op r :
   /\ (forall p, op = Some p -> wfp (code s1) p).
 Proof.
   intros [Hcc Hsb] H. unfold y_compile in H.
+  destruct (uses_ok s c); cbn [negb] in H;
+    [|inversion H; subst; (split; [exists []; now rewrite app_nil_r|]); (split; [reflexivity|]); (split; [split; assumption|discriminate])].
   destruct (forallb is_decl c) eqn:Ed.
   - set (F := gta_f (length (code s)) (fscope s) (funcs c)) in *.
     destruct (res_funcs (alookup F) (funcs c)) as [ds|] eqn:Eds; [|inversion H; subst; (split; [exists []; now rewrite app_nil_r|]); (split; [reflexivity|]); (split; [split; assumption|discriminate])].
@@ -1115,7 +1209,8 @@ Qed.
 Lemma compile_with_mem s c m :
   y_compile (with_mem s m) c = (let '(s1, p, r) := y_compile s c in (with_mem s1 m, p, r)).
 Proof.
-  unfold y_compile, with_mem. cbn [fscope vscope code epoch ymem].
+  unfold y_compile, with_mem, uses_ok, new_imports. cbn [fscope vscope code epoch ymem srcname imports].
+  match goal with |- context [negb ?b] => destruct b end; cbn [negb]; [|reflexivity].
   destruct (forallb is_decl c).
   - destruct (res_funcs _ (funcs c)); [|reflexivity]. destruct (res_inits _ (inits c)); reflexivity.
   - destruct (forallb (fun i => negb (is_decl i)) c); [|reflexivity]. destruct (res_l _ (stmts c)); reflexivity.
@@ -1204,7 +1299,10 @@ Theorem redefine_local fuel s f d s' r :
   /\ vscope s' = vscope s
   /\ (f <> main_name -> alookup (fscope s) main_name = None -> ymem s' = ymem s).
 Proof.
-  unfold y_eval, y_compile. cbn [forallb is_decl andb funcs inits vars flat_map app gta_f gta_v map rev res_funcs res_inits mapM snd].
+  unfold y_eval, y_compile.
+  destruct (uses_ok s [IFunc f d]); cbn [negb];
+    [|intros H; inversion H; subst; repeat split; try reflexivity; intros k rd Hk; exact Hk].
+  cbn [forallb is_decl andb funcs inits vars flat_map app gta_f gta_v map rev res_funcs res_inits mapM snd].
   destruct (res_d (alookup ((f, length (code s)) :: fscope s)) d) as [rd|] eqn:Er.
   - unfold y_execute. cbn [p_stmts p_inits p_loop p_main exl loop_flag existsb run_inits code ymem fscope].
     intros H.
@@ -1272,3 +1370,26 @@ Lemma ordered_needed :
   ordered (concat forward_cs) = false /\ snd (y_run 8 y0 forward_cs) = [RUndef; ROk None]
   /\ snd (y_run 8 y0 [concat forward_cs]) = [ROk None].
 Proof. vm_compute. repeat split. Qed.
+
+(** an import made under one source name is not visible under another *)
+Lemma import_scope_refuted :
+  nodir impscope_steps = true /\ forallb homogeneous (map step_chunk impscope_steps) = true
+  /\ imp_ordered [] (concat (map step_chunk impscope_steps)) = true
+  /\ snd (y_steps 8 y0 impscope_steps) = [ROk None; ROk None; RUndef]
+  /\ out (gmem (fst (g_run 8 g0 (map step_chunk impscope_steps)))) = [2%Z]
+  /\ obs_y (y_steps 8 y0 impscope_steps) <> obs_g (g_run 8 g0 (map step_chunk impscope_steps)).
+Proof. vm_compute. repeat split. intros H. discriminate. Qed.
+
+Lemma import_scope_example :
+  imp_ordered [] (concat (map step_chunk impscope_ok_steps)) = true
+  /\ obs_y (y_steps 8 y0 impscope_ok_steps) = obs_g (g_run 8 g0 (map step_chunk impscope_ok_steps))
+  /\ out (ymem (fst (y_steps 8 y0 impscope_ok_steps))) = [5; 2]%Z.
+Proof. vm_compute. repeat split. Qed.
+
+(** the symbols of a package evaluated as a directory are not visible to later chunks *)
+Lemma dir_scope_refuted :
+  forallb homogeneous (map step_chunk dirscope_steps) = true /\ ordered (concat (map step_chunk dirscope_steps)) = true
+  /\ snd (y_steps 8 y0 dirscope_steps) = [ROk None; RUndef]
+  /\ out (gmem (fst (g_run 8 g0 (map step_chunk dirscope_steps)))) = [7%Z]
+  /\ obs_y (y_steps 8 y0 dirscope_steps) <> obs_g (g_run 8 g0 (map step_chunk dirscope_steps)).
+Proof. vm_compute. repeat split. intros H. discriminate. Qed.
